@@ -78,13 +78,16 @@ def check(run, ctx):
     sub = [n for n in ast.walk(ex.node) if is_call_named(n, "submit")]
     ok = len(sub) == 1 and sub[0].args and ast.unparse(sub[0].args[0]) == "_lint_file_worker"
     comp = next((n for n in ast.walk(ex.node) if isinstance(n, ast.ListComp) and any(x is sub[0] for x in ast.walk(n))), None) if sub else None
-    ok = ok and comp is not None and not comp.generators[0].ifs and ast.unparse(comp.generators[0].iter) == "work_items"
-    wi = next((n.value for n in ast.walk(ex.node) if isinstance(n, ast.Assign) and ast.unparse(n.targets[0]) == "work_items"), None)
-    ok = ok and isinstance(wi, ast.ListComp) and not wi.generators[0].ifs and ast.unparse(wi.generators[0].iter) == "file_paths"
+    # roles, not names: the submit comprehension iterates a local list that is itself built, unfiltered, from the first parameter
+    ok = ok and comp is not None and not comp.generators[0].ifs and isinstance(comp.generators[0].iter, (ast.Name, ast.ListComp))
+    items_name = comp.generators[0].iter.id if comp is not None and isinstance(comp.generators[0].iter, ast.Name) else None
+    wi = next((n.value for n in ast.walk(ex.node) if isinstance(n, ast.Assign) and ast.unparse(n.targets[0]) == items_name), None) if items_name else (comp.generators[0].iter if comp is not None else None)
+    fpar = ex.node.args.args[1].arg
+    ok = ok and isinstance(wi, ast.ListComp) and not wi.generators[0].ifs and ast.unparse(wi.generators[0].iter) == fpar
     (run.ok(P3, "_execute_parallel_linting", "one future per file, none filtered") if ok else run.finding(P3, "_execute_parallel_linting", "submission", "not every file is submitted exactly once to _lint_file_worker", ex.loc))
     cr = repo.func(f"{ORCH}.Orchestrator._collect_parallel_results")
     loop = next((n for n in ast.walk(cr.node) if isinstance(n, ast.For) and is_call_named(n.iter, "as_completed")), None)
-    ok = loop is not None and ast.unparse(loop.iter.args[0]) == "futures" and not any(isinstance(n, (ast.Break, ast.Return)) for n in ast.walk(loop)) and any(is_call_named(n, "extend") for n in ast.walk(loop))
+    ok = loop is not None and ast.unparse(loop.iter.args[0]) == cr.node.args.args[1].arg and not any(isinstance(n, (ast.Break, ast.Return)) for n in ast.walk(loop)) and any(is_call_named(n, "extend") for n in ast.walk(loop))
     (run.ok(P3, "_collect_parallel_results", "as_completed(futures) consumed to the end, results extended") if ok else run.finding(P3, "_collect_parallel_results", "consumption", "a completed future's violations can be dropped (early exit / not extended)", cr.loc))
     fb = [n for n in ast.walk(lfp.node) if isinstance(n, ast.If) and any(isinstance(s, ast.Return) and is_call_named(s.value, "lint_files") for s in n.body)]
     (run.ok(P3, "fallback", f"if {norm(fb[0].test)}: return self.lint_files(file_paths)") if fb else run.finding(P3, "lint_files_parallel", "fallback", "the small-input fallback is not the sequential lint_files", lfp.loc))
